@@ -379,8 +379,24 @@ func (ro *Roles) canceledSites(r *Report, rule string) {
 						detail = p.LitString()
 					}
 					if !removed && p.End == "return" {
-						okRemoved = false
-						detail = p.LitString()
+						// nothing to remove if the job is not on the list: the path compared the list's
+						// elements with the job and found none (no such comparison holds on it)
+						onList := false
+						for _, l := range p.Lits {
+							if l.Atom.Op == "==" && l.Val && (strings.Contains(l.Atom.L, waitListField) || strings.Contains(l.Atom.R, waitListField)) && !strings.HasPrefix(l.Atom.L, "len(") {
+								onList = true
+							}
+						}
+						searched := false
+						for _, l := range p.Lits {
+							if strings.Contains(l.Atom.L, waitListField) || strings.Contains(l.Atom.R, waitListField) {
+								searched = true
+							}
+						}
+						if onList || !searched {
+							okRemoved = false
+							detail = p.LitString()
+						}
 					}
 				}
 				r.Check(okUnstarted, "canceled-site.cancel-unstarted-only", hkey+" (cancel request)", pos, "the cancel request marks a job canceled directly only on the `Start == nil` path (a started job is canceled through its scheduler and the completion handler)", "the cancel request marks a possibly started job canceled directly (path "+detail+"): its slot is freed while its tasks still run")
